@@ -84,7 +84,7 @@ pub fn gen(tier: &str, seed: u64, outdir: &str) {
         let (t, e) = rec(|| mat_out(&rq_m(&RQKernel::new(var, al, ls), form, &xs, &ys)));
         cs.push(app("CRqM", vec![libm_table(&t), Tm::Nat(form as u64), Tm::F(var), Tm::F(al), Tm::F(ls), fl(&xs), fl(&ys), outcome_list(&e)]), &format!("rq/matrix/form{}", form), xs.len() >= 2 || ys.len() >= 2);
     }
-    // the plumbing on every argument kind, any Matrix shape (reshape(-1, 1) flattens it), and empty point sets (Vector kinds: panic)
+    // the plumbing on every argument kind, any Matrix shape (reshape(-1, 1) / reshape(1, -1) flatten it), and empty point sets (Vector kinds: panic)
     for i in 0..40 * k {
         let (var, ls, al) = (param(&mut r), param(&mut r), param(&mut r));
         let kind = (i % 4) as usize;
@@ -130,7 +130,7 @@ pub fn gen(tier: &str, seed: u64, outdir: &str) {
         let (t, e) = rec(|| { let kk = RQKernel::new(var, al, ls); if i % 2 == 0 { kk.forward(x, y) } else { kk.forward(&x, &y) } });
         cs.push(app("CRq", vec![libm_table(&t), Tm::F(var), Tm::F(al), Tm::F(ls), Tm::F(x), Tm::F(y), outcome_list(&e.map(|v| vec![v]))]), "rq/scalar/underflow", true);
     }
-    // matrix form at the two ends of the size range (1 and 60 points, also at the quick tier) on the point sets where the expanded square cancels:
+    // matrix form at the two ends of the size range (1 and 60 points, also at the quick tier) on the point sets where an expanded square would cancel:
     // clusters and regular grids far from the origin, exactly equal abscissae, the ends of +-1e3
     for (i, &(n, m)) in [(1usize, 1usize), (1, 60), (60, 1), (60, 2), (2, 60), (59, 3), (60, 60), (60, 60)].iter().enumerate() {
         let (var, ls, al) = if i % 2 == 0 { (*r2.pick(&edge), *r2.pick(&edge), *r2.pick(&edge)) } else { (param(&mut r2), param(&mut r2), param(&mut r2)) };
@@ -148,6 +148,20 @@ pub fn gen(tier: &str, seed: u64, outdir: &str) {
         let (t, e) = rec(|| mat_out(&rq_m(&RQKernel::new(var, al, ls), form, &xs, &ys)));
         cs.push(app("CRqM", vec![libm_table(&t), Tm::Nat(form as u64), Tm::F(var), Tm::F(al), Tm::F(ls), fl(&xs), fl(&ys), outcome_list(&e)]), &format!("rq/matrix/ends/form{}", form), true);
     }
+    // empty point sets on every argument kind, on one side or on both (Vector kinds: no entries; Matrix kinds: the 0 x 0 Matrix::empty()): refused, by the
+    // assertion on the sizes (Vectors) or inside the reshape (Matrix); two empty Vectors must not come back as a 0 x 0 result
+    for kind in 0..4usize { for &(n, m) in &[(0usize, 0usize), (0, 1), (1, 0), (0, 5), (5, 0)] {
+        let (var, ls, al) = (param(&mut r2), param(&mut r2), param(&mut r2));
+        let (xs, ys) = (points(&mut r2, n), points(&mut r2, m));
+        let shp = |n: usize| if kind >= 2 { if n == 0 { (0, 0) } else { (n, 1) } } else { (1, n) };
+        let ((rx, cx), (ry, cy)) = (shp(n), shp(m));
+        let (t, e) = rec(|| mat_out(&rbf_p(&RBFKernel::new(var, ls), kind, (rx, cx, &xs), (ry, cy, &ys))));
+        cs.push(app("CRbfP", vec![libm_table(&t), Tm::Nat(kind as u64), Tm::F(var), Tm::F(ls), Tm::Nat(rx as u64), Tm::Nat(cx as u64), fl(&xs), Tm::Nat(ry as u64), Tm::Nat(cy as u64), fl(&ys), outcome_list(&e)]),
+                &format!("rbf/plumbing/kind{}/empty-sets", kind), true);
+        let (t, e) = rec(|| mat_out(&rq_p(&RQKernel::new(var, al, ls), kind, (rx, cx, &xs), (ry, cy, &ys))));
+        cs.push(app("CRqP", vec![libm_table(&t), Tm::Nat(kind as u64), Tm::F(var), Tm::F(al), Tm::F(ls), Tm::Nat(rx as u64), Tm::Nat(cx as u64), fl(&xs), Tm::Nat(ry as u64), Tm::Nat(cy as u64), fl(&ys), outcome_list(&e)]),
+                &format!("rq/plumbing/kind{}/empty-sets", kind), true);
+    }}
     // constructors: NaN and -inf are not positive numbers
     for p in [[f64::NAN, 1.0, 1.0], [1.0, f64::NAN, 1.0], [1.0, 1.0, f64::NAN], [f64::NEG_INFINITY, 1.0, 1.0], [1.0, f64::NEG_INFINITY, 2.0], [2.0, 1.0, f64::NEG_INFINITY], [f64::NAN, f64::NAN, f64::NAN]] {
         let e = catch(|| { RBFKernel::new(p[0], p[1]); vec![] });
@@ -155,7 +169,7 @@ pub fn gen(tier: &str, seed: u64, outdir: &str) {
         let e = catch(|| { RQKernel::new(p[0], p[1], p[2]); vec![] });
         cs.push(app("CRqNew", vec![Tm::F(p[0]), Tm::F(p[1]), Tm::F(p[2]), outcome_list(&e)]), "rq/new/nan", e.is_err());
     }
-    cs.write(outdir, 150, "kernel parameters log-uniform in (1e-2,1e2); scalar pairs in +-1e3 (equal, within a length scale, far apart, unrelated), owned and borrowed; matrix form on point sets of 1..14 (quick) / 1..60 (thorough) points passed as Vector or Matrix (row or column shaped), owned or borrowed, equal and different sets; the same through the composed component models on every argument kind with Matrix arguments of any shape r x c (flattened by reshape(-1, 1)) and empty Vector point sets (panic); constructors with valid and invalid parameters (zeros of both signs, NaN, infinities); the corners of the parameter box with scalar pairs at the ends of +-1e3, one ulp apart and around the distance where exp underflows, and point sets of exactly 1 and 60 points (clusters and grids far from the origin, equal abscissae) at both tiers; every case carries the libm calls (exp, pow); non-trivial = distinct arguments (scalar), at least 2 points (matrix), rejected parameters (constructors); distinct by hash");
+    cs.write(outdir, 150, "kernel parameters log-uniform in (1e-2,1e2); scalar pairs in +-1e3 (equal, within a length scale, far apart, unrelated), owned and borrowed; matrix form on point sets of 1..14 (quick) / 1..60 (thorough) points passed as Vector or Matrix (row or column shaped), owned or borrowed, equal and different sets; the same through the composed component models on every argument kind with Matrix arguments of any shape r x c (flattened by reshape(-1, 1) / reshape(1, -1)) and empty Vector point sets (panic), both empty included; constructors with valid and invalid parameters (zeros of both signs, NaN, infinities); the corners of the parameter box with scalar pairs at the ends of +-1e3, one ulp apart and around the distance where exp underflows, and point sets of exactly 1 and 60 points (clusters and grids far from the origin, equal abscissae) at both tiers; every case carries the libm calls (exp, pow); non-trivial = distinct arguments (scalar), at least 2 points (matrix), rejected parameters (constructors); distinct by hash");
 }
 
 fn jacobi_min_eig(a: &mut Vec<Vec<f64>>) -> f64 {
@@ -179,7 +193,6 @@ fn jacobi_min_eig(a: &mut Vec<Vec<f64>>) -> f64 {
 
 fn next_up(x: f64) -> f64 { if x == 0.0 { f64::from_bits(1) } else if x > 0.0 { f64::from_bits(x.to_bits() + 1) } else { f64::from_bits(x.to_bits() - 1) } }
 fn next_down(x: f64) -> f64 { -next_up(-x) }
-const CANCEL: &str = ":cancellation-in-expanded-square";
 fn add(out: &mut Vec<Finding>, class: &str, what: String, input: String) { if !out.iter().any(|f| f.class == class) { out.push(Finding { class: class.into(), what, input }); } }
 
 /// how the two point sets are handed to the matrix form: `Form(f)` = the four row / column conventions of `rbf_m`; `Shaped(kind, shape of xs, shape of ys)` =
@@ -212,11 +225,14 @@ fn check_sets(out: &mut Vec<Finding>, tried: &mut u64, r: &mut Rng, how: How, va
                 if g.nrows != n || g.ncols != m { add(out, &format!("{}:matrix-shape", name), format!("matrix form is {}x{}, expected {}x{}", g.nrows, g.ncols, n, m), inp.clone()); continue; }
                 for i in 0..n { for j in 0..m {
                     let (a, b) = (g[[i, j]], sc(xs[i], ys[j]));
-                    // cancellation in x^2 + y^2 - 2xy: absolute error eps*(|x|+|y|)^2 in the squared distance
-                    let u = 4.0 * f64::EPSILON * (xs[i].abs() + ys[j].abs()).powi(2) / (2.0 * ls * ls) * if name == "rbf" { 1.0 } else { 1.0 };
+                    // The matrix form takes the difference x_i - y_j first (repaired code), as the scalar form does: the two are the same chain of
+                    // correctly rounded operations, so only rounding-level differences are granted (no cancellation allowance any more).  What any
+                    // implementation of that chain may differ by: a few ulp in the squared distance, amplified by the exponent t = (x-y)^2 / (2 l^2) through
+                    // exp (relative t * eps) or by alpha through powf, plus a few ulp of exp / powf / the product themselves.
+                    let t = if name == "rbf" { (xs[i] - ys[j]).powi(2) / (2.0 * ls * ls) } else { 0.0 };
                     // results in the subnormal range are quantised to 2^-1074: exp / powf may each be off by one such unit before the
                     // multiplication by var (seen at thorough: k = 3.3e-312 with var = 3 differs by 3 units), so the allowance has an absolute floor
-                    let tol = b.abs() * (u.exp() - 1.0 + 64.0 * f64::EPSILON * (1.0 + al)) + (2.0 * var + 2.0) * f64::from_bits(1);
+                    let tol = b.abs() * 64.0 * f64::EPSILON * (1.0 + al + t.min(800.0)) + (2.0 * var + 2.0) * f64::from_bits(1);
                     if !((a - b).abs() <= tol) { add(out, &format!("{}:matrix-entry-differs-from-scalar", name), format!("entry ({},{}) = {:e}, scalar form {:e}", i, j, a, b), inp.clone()); }
                 }}
             }
@@ -224,27 +240,22 @@ fn check_sets(out: &mut Vec<Finding>, tried: &mut u64, r: &mut Rng, how: How, va
         // Gram matrix on xs: symmetric, PSD (Cholesky-free: LDL^T in f64 with a floor of -c n eps var)
         let g = eval_m(name, how, var, al, ls, xs, xs, true);
         if let Ok(g) = g {
+            if g.nrows != n || g.ncols != n { add(out, &format!("{}:matrix-shape", name), format!("Gram matrix is {}x{}, expected {}x{}", g.nrows, g.ncols, n, n), inp.clone()); continue; }
             let mut a: Vec<Vec<f64>> = (0..n).map(|i| (0..n).map(|j| g[[i, j]]).collect()).collect();
             let mut sym = true;
             for i in 0..n { for j in 0..n { if (a[i][j] - a[j][i]).abs() > 1e-9 * var { sym = false; } } }
             if !sym { add(out, &format!("{}:gram-asymmetric", name), "Gram matrix is not symmetric".into(), inp.clone()); }
             // quadratic forms with random and adversarial (alternating) coefficient vectors
             let floor = -1e-9 * var * (n as f64) * (n as f64);
-            // What is demanded is unchanged (the two floors).  A failure is filed under its own class key when its size is what the rounding of the
-            // expanded square x^2 + y^2 - 2xy explains (absolute error of the order eps (|x|+|y|)^2 in the squared distance, the allowance of the entry
-            // clause above: the Gram matrix is then within var * umax per entry of the scalar form's, hence its eigenvalues within n * var * umax),
-            // so that a kernel that is not positive semi-definite for another reason keeps the plain key
-            let mut umax = 0.0f64;
-            for i in 0..n { for j in 0..n { umax = umax.max((4.0 * f64::EPSILON * (xs[i].abs() + xs[j].abs()).powi(2) / (2.0 * ls * ls)).exp_m1()); } }
             for t in 0..6 {
                 let c: Vec<f64> = (0..n).map(|i| if t == 0 { if i % 2 == 0 { 1.0 } else { -1.0 } } else { r.uniform(-1.0, 1.0) }).collect();
                 let mut q = 0.0; for i in 0..n { for j in 0..n { q += c[i] * a[i][j] * c[j]; } }
-                if !(q >= floor) { add(out, &format!("{}:gram-not-psd{}", name, if q >= floor - var * umax * (n * n) as f64 { CANCEL } else { "" }), format!("c^T K c = {:e} < 0 for a coefficient vector c", q), inp.clone()); break; }
+                if !(q >= floor) { add(out, &format!("{}:gram-not-psd", name), format!("c^T K c = {:e} < 0 for a coefficient vector c", q), inp.clone()); break; }
             }
             // smallest eigenvalue by cyclic Jacobi (backward stable: error ~ n*eps*||K||); floor -1e-10*n^2*var
             let lam = jacobi_min_eig(&mut a);
             let lfloor = -1e-10 * var * (n * n) as f64;
-            if !(lam >= lfloor) { add(out, &format!("{}:gram-not-psd{}", name, if lam >= lfloor - var * umax * n as f64 { CANCEL } else { "" }), format!("smallest eigenvalue of the Gram matrix is {:e} (variance {:e}, {} points)", lam, var, n), inp.clone()); }
+            if !(lam >= lfloor) { add(out, &format!("{}:gram-not-psd", name), format!("smallest eigenvalue of the Gram matrix is {:e} (variance {:e}, {} points)", lam, var, n), inp.clone()); }
         }
     }
 }
